@@ -144,7 +144,7 @@ struct PrimePick
 
 // ------------------------------------------------------------------ scalar oracle
 enum Op { ADD, SUB, MUL, DIV, NEG, CONJ };
-enum Kind { VV, VS, SV, UN, SELF };
+enum Kind { VV, VS, SV, UN, SELF, AL0, AL1 }; // AL0/AL1: the scalar argument IS component 0 / 1 of the left operand (aliasing)
 
 // CONJ (Quat operator~): slot 0 is kept, the others negated
 inline Op slot_op (Op op, int i) { return op == CONJ ? (i == 0 ? ADD /*unused*/ : NEG) : op; }
@@ -295,6 +295,7 @@ template <class T> inline std::vector<std::string> op_classes (std::false_type) 
 template <class T> inline std::vector<std::string> op_classes () { return op_classes<T> (is_fp_t<T> ()); }
 
 // ------------------------------------------------------------------ aggregate traits
+template <class V> struct Tr;
 template <class V> struct Sp
 {
     const char* name;
@@ -328,6 +329,10 @@ template <class V> inline std::vector<Sp<V>> veclike_spellings ()
         {"operator*(T,V)", MUL, SV, C04_L (return V (s * a);)},
         {"operator/(V,T)", DIV, VS, C04_L (return V (a / s);)},
         {"operator/=(T)", DIV, VS, C04_L (V x (a); return V (x /= s);)},
+        {"operator*=(T=self[0])", MUL, AL0, C04_L (V x (a); return V (x *= Tr<V>::at (x, 0));)},
+        {"operator*=(T=self[1])", MUL, AL1, C04_L (V x (a); return V (x *= Tr<V>::at (x, 1));)},
+        {"operator/=(T=self[0])", DIV, AL0, C04_L (V x (a); return V (x /= Tr<V>::at (x, 0));)},
+        {"operator/=(T=self[1])", DIV, AL1, C04_L (V x (a); return V (x /= Tr<V>::at (x, 1));)},
         {"operator-(unary)", NEG, UN, C04_L (return V (-a);)},
         {"negate()", NEG, UN, C04_L (V x (a); return V (x.negate ());)},
     };
@@ -349,6 +354,10 @@ template <class V> inline std::vector<Sp<V>> quat_spellings ()
         {"operator*(T,V)", MUL, SV, C04_L (return V (s * a);)},
         {"operator/(V,T)", DIV, VS, C04_L (return V (a / s);)},
         {"operator/=(T)", DIV, VS, C04_L (V x (a); return V (x /= s);)},
+        {"operator*=(T=self[0])", MUL, AL0, C04_L (V x (a); return V (x *= Tr<V>::at (x, 0));)},
+        {"operator*=(T=self[1])", MUL, AL1, C04_L (V x (a); return V (x *= Tr<V>::at (x, 1));)},
+        {"operator/=(T=self[0])", DIV, AL0, C04_L (V x (a); return V (x /= Tr<V>::at (x, 0));)},
+        {"operator/=(T=self[1])", DIV, AL1, C04_L (V x (a); return V (x /= Tr<V>::at (x, 1));)},
         {"operator-(unary)", NEG, UN, C04_L (return V (-a);)},
         {"operator~", CONJ, UN, C04_L (return V (~a);)},
     };
@@ -372,6 +381,12 @@ template <class V> inline std::vector<Sp<V>> matrix_spellings ()
         {"operator*(T,V)", MUL, SV, C04_L (return V (s * a);)},
         {"operator/(V,T)", DIV, VS, C04_L (return V (a / s);)},
         {"operator/=(T)", DIV, VS, C04_L (V x (a); return V (x /= s);)},
+        {"operator*=(T=self[0])", MUL, AL0, C04_L (V x (a); return V (x *= Tr<V>::at (x, 0));)},
+        {"operator*=(T=self[1])", MUL, AL1, C04_L (V x (a); return V (x *= Tr<V>::at (x, 1));)},
+        {"operator/=(T=self[0])", DIV, AL0, C04_L (V x (a); return V (x /= Tr<V>::at (x, 0));)},
+        {"operator/=(T=self[1])", DIV, AL1, C04_L (V x (a); return V (x /= Tr<V>::at (x, 1));)},
+        {"operator+=(T=self[0])", ADD, AL0, C04_L (V x (a); return V (x += Tr<V>::at (x, 0));)},
+        {"operator-=(T=self[1])", SUB, AL1, C04_L (V x (a); return V (x -= Tr<V>::at (x, 1));)},
         {"operator-(unary)", NEG, UN, C04_L (return V (-a);)},
         {"negate()", NEG, UN, C04_L (V x (a); return V (x.negate ());)},
     };
@@ -559,6 +574,8 @@ template <class V> void run_ops (Ctx& c, uint64_t idx)
                 case VS: y = s; break;
                 case SV: x = s; y = a[i]; break;
                 case SELF: y = a[i]; break;
+                case AL0: y = a[0]; break;
+                case AL1: y = a[1]; break;
                 case UN: break;
             }
             if (sp.op == CONJ && i == 0) { want[i] = a[i]; continue; }
